@@ -20,7 +20,7 @@ Alphabet == {
   Region("circle", "+", Plain3, [color |-> "red", text |-> "a b"], FALSE),
   Region("circle", "", Plain3, [include |-> "0", tag |-> "t1", tag2 |-> "Group 2"], FALSE),          \* two tags on one line (a list of two)
   Region("box", "", Box5, NoProps, TRUE),
-  [k |-> "composite", props |-> P([color |-> "yellow"])], [k |-> "composite", props |-> P([include |-> "0"])],
+  [k |-> "composite", props |-> P([color |-> "yellow"])], [k |-> "composite", props |-> P([include |-> "0"])], [k |-> "composite", props |-> P([text |-> "Group A"])],
   [k |-> "comment"], [k |-> "badshape"], [k |-> "badword"],
   Region("annulus", "", <<T("plain", 10500), T("plain", 20250), T("plain", 1000), T("plain", 2000), T("plain", 3500)>>, NoProps, FALSE),
   Region("text", "", <<T("plain", 10500), T("plain", 20250)>>, [text |-> "hello; world # x=1"], FALSE) }
@@ -67,6 +67,27 @@ LexLines(f) ==
     {Region(sh, "", IF sh = "text" THEN <<T("plain", 150250), T("plain", -20500)>> ELSE <<T("plain", 150250), T("plain", -20500), T("plain", 1500)>>,
             [text |-> v], FALSE) : sh \in {"text", "circle"}, v \in TextVals} }
 FilesLex == UNION {{<<Frame(f), l>> : l \in LexLines(f)} : f \in Supported}
+
+(* spellings: a number is a number however it is written (150.000, 150., +150.000, 1.5000e+02, 150); the token carries its spelling, *)
+(* the Meaning operators of Ds9.tla do not look at it                                                                          *)
+TS(n, v, sp) == [n |-> n, v |-> v, sp |-> sp]
+Spellings == {"fixed", "dot", "plus", "exp", "int"}
+PosDec(f) == IF f = "image" THEN {"plain", "i"} ELSE {"plain", "d"}
+SizeDec(f) == IF f = "image" THEN {"plain", "i"} ELSE {"plain", "d", "asec", "amin"}
+SpellLines(f) ==
+  UNION {
+    {Region("circle", "", <<TS(p, 150000, sp), TS(p, -20000, sp), TS(z, 3000, sp)>>, NoProps, FALSE) : p \in PosDec(f), z \in SizeDec(f), sp \in Spellings},
+    {Region("box", "", <<TS("plain", 150000, sp), TS("plain", 20000, sp), TS(z, 4000, sp), TS(z, 3000, sp), TS(a, 30000, sp)>>, NoProps, FALSE) :
+        z \in SizeDec(f), a \in {"plain", "d"}, sp \in Spellings},
+    {Region("ellipse", "", <<TS("plain", 150000, "fixed"), TS("plain", 20000, sp), TS(z, 4000, "fixed"), TS(z, 3000, sp), TS("plain", -30000, sp)>>, NoProps, FALSE) :
+        z \in SizeDec(f), sp \in Spellings},
+    {Region("annulus", "", <<TS("plain", 150000, sp), TS("plain", 20000, sp), TS(z, 1000, sp), TS(z, 2000, "fixed"), TS(z, 3000, sp)>>, NoProps, FALSE) :
+        z \in SizeDec(f), sp \in Spellings},
+    {Region("text", "", <<TS("plain", 150000, sp), TS("plain", 20000, sp)>>, [text |-> "A b"], FALSE) : sp \in Spellings},
+    (* {} text on a tag is verbatim as well; a ';' inside it does not end the line *)
+    {Region("circle", "", <<TS("plain", 150000, "fixed"), TS("plain", 20000, "fixed"), TS("plain", 3000, "fixed")>>, kv, FALSE) :
+        kv \in {[tag |-> "a;b", color |-> "red"], [tag |-> "Group; 2", text |-> "x; y"]}} }
+FilesSpell == UNION {{<<Frame(f), l>> : l \in SpellLines(f)} : f \in {"image", "fk5", "galactic"}}
 
 VARIABLES file, i, s
 vars == <<file, i, s>>
